@@ -33,7 +33,8 @@ CONSTANTS
   Js,           \* scales j (x = k / 10^j)
   Ds,           \* digits d of the R phase
   Divisors,     \* [Js -> set of non-zero integers]: MOD divisor numerators p (m = p/10^j)
-  Sigs,         \* significances of the C phase in quarter units (non-zero)
+  Sigs,         \* significances of the C phase in units of 1/SigDen (non-zero)
+  SigDen,       \* 4: quarters (binary-exact significances), 20: twentieths (0.05, 0.1, 0.3 ...)
   Kmax,         \* bound on |k|
   SmallMax,     \* k = 0..SmallMax are all visited
   GridStride,   \* grid: k = off + i*GridStride
@@ -103,12 +104,12 @@ ModQ(kk, pp) == FloorDiv(kk, pp)
 Mod(kk, pp)  == kk - pp * ModQ(kk, pp)
 
 --------------------------------------------------------------------------
-(* CEILING / FLOOR family: x = kk/10^jj, significance s4/4.                *)
+(* CEILING / FLOOR family: x = kk/10^jj, significance s4/SigDen.           *)
 (* Lo / Hi = the adjacent multiples of |significance| with Lo <= x <= Hi,  *)
-(* in quarter units (Lo = Hi exactly when x is a multiple).                *)
-SUnit(s4, jj) == Abs(s4) * Pow10(jj)                 \* x/|sig| = 4k / SUnit
-Lo(kk, jj, s4) == FloorDiv(4 * kk, SUnit(s4, jj)) * Abs(s4)
-Hi(kk, jj, s4) == IF (4 * Abs(kk)) % SUnit(s4, jj) = 0 THEN Lo(kk, jj, s4)
+(* in units of 1/SigDen (Lo = Hi exactly when x is a multiple).            *)
+SUnit(s4, jj) == Abs(s4) * Pow10(jj)                 \* x/|sig| = SigDen*k / SUnit
+Lo(kk, jj, s4) == FloorDiv(SigDen * kk, SUnit(s4, jj)) * Abs(s4)
+Hi(kk, jj, s4) == IF (SigDen * Abs(kk)) % SUnit(s4, jj) = 0 THEN Lo(kk, jj, s4)
                   ELSE Lo(kk, jj, s4) + Abs(s4)
 
 Variants == <<"CEILING", "CEILING.MATH", "CEILING.MATH1", "CEILING.PRECISE",
@@ -147,12 +148,14 @@ ErrAllowed(v, kk, s4) == IsLegacy(v) /\ kk > 0 /\ s4 < 0
 --------------------------------------------------------------------------
 (* the enumerator machine *)
 
+RECURSIVE Gcd(_, _)
+Gcd(a, b) == IF b = 0 THEN a ELSE Gcd(b, a % b)
+
 \* unit of the current (ph, j, p) in k-space; 0 = "no multiples/ties to walk"
 Unit == CASE ph = "R" -> IF j - p \in 1..6 THEN Pow10(j - p) ELSE 0
           [] ph = "M" -> Abs(p)
-          [] ph = "C" -> LET s == SUnit(p, j)      \* multiples of |sig|: 4k % s = 0
-                         IN  IF s % 4 = 0 THEN s \div 4
-                             ELSE IF s % 2 = 0 THEN s \div 2 ELSE s
+          [] ph = "C" -> LET s == SUnit(p, j)      \* multiples of |sig|: SigDen*k % s = 0
+                         IN  s \div Gcd(s, SigDen)
 HasTies == ph = "R" /\ Unit > 0
 IsMult(kk) == Unit > 0 /\ Abs(kk) % Unit = 0
 IsTie(kk)  == HasTies /\ Abs(kk) % Unit = Unit \div 2
@@ -310,10 +313,10 @@ ModLaws ==
 CeilFloorLaws ==
   ph = "C" =>
     LET lo == Lo(k, j, p)  hi == Hi(k, j, p)  t == Pow10(j)
-    IN  /\ lo * t <= 4 * k /\ 4 * k <= hi * t          \* Lo <= x <= Hi
+    IN  /\ lo * t <= SigDen * k /\ SigDen * k <= hi * t          \* Lo <= x <= Hi
         /\ Abs(lo) % Abs(p) = 0 /\ Abs(hi) % Abs(p) = 0         \* multiples of |sig|
         /\ hi - lo \in {0, Abs(p)}                     \* adjacent
-        /\ (hi = lo) <=> (lo * t = 4 * k)              \* equal iff x is a multiple
+        /\ (hi = lo) <=> (lo * t = SigDen * k)         \* equal iff x is a multiple
         /\ Lo(-k, j, p) = -hi /\ Hi(-k, j, p) = -lo    \* FLOOR(-x) = -CEILING(x)
         /\ Lo(k, j, -p) = lo                           \* sign of sig is not in the grid
         /\ \A i \in 1..Len(Variants) :
@@ -358,7 +361,7 @@ Export ==
                         mod |-> Mod(k, p), q |-> ModQ(k, p)]))
     [] ph = "C" ->
          LET lo == Lo(k, j, p)  hi == Hi(k, j, p)  n == Len(Variants)
-         IN  PrintT(ToJson([ph |-> "C", k |-> k, j |-> j, s4 |-> p, cls |-> Class,
+         IN  PrintT(ToJson([ph |-> "C", k |-> k, j |-> j, s4 |-> p, den |-> SigDen, cls |-> Class,
                         lo |-> lo, hi |-> hi,
                         allow |-> [i \in 1..n |-> Allowed(Variants[i], k, p, lo, hi)],
                         err |-> [i \in 1..n |-> ErrAllowed(Variants[i], k, p)],
